@@ -31,8 +31,12 @@ REGISTRATION = {
             "request kind of pull and of both push paths is answered from the whole status alphabet (1xx, 2xx, "
             "3xx with/without Location, 4xx, 5xx) and net/http's redirect handling per method and body kind is "
             "part of the model (`follow`, measured by exact L1 incl. an exhaustive first-answer enumeration); "
-            "legacy push: single-part uploads only (files < 100 MB); not scripted: 401 (token dance), a final 201 "
+            "legacy push: single-part uploads only (files < 100 MB); two concurrent pushes sharing one upload "
+            "through blobUploadManager are modelled and driven (the second joins while the first one's session POST "
+            "is held), more than two or a join at another moment are not; not scripted: 401 (token dance), a final 201 "
             "to the upload POST and a final 307 to a PATCH try (both can block the real code for ever). Known "
+            "finding F19 (blobUpload.Run dies on a nil part hash when its context is cancelled before a part starts, "
+            "random 1/2; shown in a process of its own; proposed_fixes/C09-F19-upload-run-cancelled-before-parts.patch), "
             "finding F18 (legacy push takes every final status < 400 for a success; "
             "proposed_fixes/C09-F18-legacy-push-require-2xx.patch, model flag `strict` selected by a probe) and "
             "finding F10d (Chunked writes into the final blob file) is open on /repo; "
@@ -55,6 +59,10 @@ THEOREMS = [
     "OllamaVerif.C09.layerRun_good_last_2xx",
     "OllamaVerif.C09.exchange_ok_last_2xx",
     "OllamaVerif.C09.F18_legacy_non_2xx_counts_as_accepted",
+    "OllamaVerif.C09.sharedTransfer_ok_settled",
+    "OllamaVerif.C09.shared_joined_success_only_if_transfer_ok",
+    "OllamaVerif.C09.shared_owner_success_only_if_transfer_ok",
+    "OllamaVerif.C09.shared_prepare_failure_witness",
     "OllamaVerif.C09.legacy_push_manifest_last",
     "OllamaVerif.C09.F10a_holey_file_trusted_on_retry",
     "OllamaVerif.C09.F10b_repeated_chunk_satisfies_counter",
